@@ -256,10 +256,38 @@ func ctJSONUnit() string {
 	return "/-- generated from types.go: the API message structs — (Go field, Go type, JSON name) in declaration order -/\ndef apiJson : List (String × List (String × String × String)) :=\n  [" + strings.Join(rows, ",\n   ") + "]\n"
 }
 
+// condKernelSrc: the source text of the condition of the unique `if` of fn whose then-branch contains marker.
+func condKernelSrc(rel, fn, marker, leanName string) func() string {
+	return func() string {
+		fd := mustFunc(rel, fn)
+		ss := findStmts(fd, func(s ast.Stmt) bool {
+			i, ok := s.(*ast.IfStmt)
+			return ok && strings.Contains(src(i.Body), marker)
+		})
+		if len(ss) != 1 {
+			panic(bail{fmt.Sprintf("%s: expected exactly one `if` whose body mentions %q in %s, found %d", rel, marker, fn, len(ss))})
+		}
+		return fmt.Sprintf("/-- generated from %s func %s: the condition under which `%s…` is chosen -/\ndef %s : String := %s\n", rel, fn, marker, leanName, leanStr(src(ss[0].(*ast.IfStmt).Cond)))
+	}
+}
+
 func init() {
 	register(genFile{name: "CtTypes", imports: []string{"CTV.Tls.Tag"}, units: []unit{
 		{"ct wire types", ctTypesUnit},
 		{"ct api json", ctJSONUnit},
+		// how the serialization.go wrappers are wired: which struct literal is marshalled, what is prepended, what is parsed
+		{"SerializeSCTSignatureInput.input", assignsTo("serialization.go", "SerializeSCTSignatureInput", "input", "sctInputAssign")},
+		{"SerializeSCTSignatureInput.x509", assignsTo("serialization.go", "SerializeSCTSignatureInput", "input.X509Entry", "sctInputX509Assign")},
+		{"SerializeSCTSignatureInput.precert", assignsTo("serialization.go", "SerializeSCTSignatureInput", "input.PrecertEntry", "sctInputPrecertAssign")},
+		{"SerializeSCTSignatureInput.marshal", callsOf("serialization.go", "SerializeSCTSignatureInput", "tls.Marshal", "sctInputMarshal")},
+		{"SerializeSTHSignatureInput.input", assignsTo("serialization.go", "SerializeSTHSignatureInput", "input", "sthInputAssign")},
+		{"SerializeSTHSignatureInput.marshal", callsOf("serialization.go", "SerializeSTHSignatureInput", "tls.Marshal", "sthInputMarshal")},
+		{"LeafHashForLeaf.marshal", callsOf("serialization.go", "LeafHashForLeaf", "tls.Marshal", "leafHashMarshal")},
+		{"LeafHashForLeaf.data", assignsTo("serialization.go", "LeafHashForLeaf", "data", "leafHashData")},
+		{"LeafHashForLeaf.hash", callsOf("serialization.go", "LeafHashForLeaf", "sha256.Sum256", "leafHashSum")},
+		{"RawLogEntryFromLeaf.unmarshal", callsOf("serialization.go", "RawLogEntryFromLeaf", "tls.Unmarshal", "rawLogEntryUnmarshal")},
+		{"ExtraDataForChain.extra", assignsTo("trillian/util/log_leaf.go", "ExtraDataForChain", "extra", "extraDataAssign")},
+		{"buildLogLeaf.choice", condKernelSrc("trillian/util/log_leaf.go", "buildLogLeaf", "ExtraDataForChain(", "buildLogLeafChoice")},
 		{"TreeLeafPrefix", ctConst("types.go", "TreeLeafPrefix", "treeLeafPrefix")},
 		{"TreeNodePrefix", ctConst("types.go", "TreeNodePrefix", "treeNodePrefix")},
 		{"X509LogEntryType", ctConst("types.go", "X509LogEntryType", "x509LogEntryType")},
